@@ -28,6 +28,26 @@ def slicer_of(fn):
     return s
 
 
+_resolvers = {}
+
+
+def resolver_of(fn):
+    r = _resolvers.get(id(fn))
+    if r is None:
+        r = nf.Resolver(fn)
+        _resolvers[id(fn)] = r
+    return r
+
+
+def mutable_locals(fn):
+    """{name: [definition nodes]} for locals that are assigned more than once (let mut + assignments)"""
+    out = {}
+    for x in user_nodes(fn):
+        if x["k"] == "Let" and x["pat"]["k"] == "Bind" and "Mut" in x["pat"].get("mode", ""):
+            out.setdefault(x["pat"]["name"], [])
+    return out
+
+
 def short(callee):
     return (callee or "").split("::")[-1]
 
